@@ -209,9 +209,9 @@ RelationSane(f, v) ==
 Thorough == Tier = "thorough"
 
 I16Pos == {32766, 32767, 32768, 32769, 32770, 40000, 65536, 70000}
-          \cup (IF Thorough THEN {32000, 65534, 65535, 65636, 98304, 131070} ELSE {})
+          \cup (IF Thorough THEN {32000, 65535, 65636, 98304, 131070} ELSE {})
 I16Neg == {-32767, -32768, -32769, -32770, -32771, -40000, -65537, -70000}
-          \cup (IF Thorough THEN {-32000, -65535, -65536, -65636, -98304, -131072} ELSE {})
+          \cup (IF Thorough THEN {-32000, -65536, -65636, -98000, -131072} ELSE {})
 \* magnitudes of differences of two 16-bit values
 DeltaMag == {32767, 32768, 32770, 40000, 65535} \cup (IF Thorough THEN {32766, 32769, 50000, 65534} ELSE {})
 Q14Vals == {32766, 32767, 32768, 32769, 32770, 40960, 65536,
@@ -234,7 +234,8 @@ Values(f) ==
     [] f \in {"glyph_count", "num_h_metrics"} -> {}   \* generated together (same source), see Linked
     [] f = "comp_points" -> {65534, 65535, 65536, 66000} \cup (IF Thorough THEN {131072, 196608} ELSE {})
     [] f = "comp_contours" -> {}                     \* paired with comp_points below
-    [] f = "glyph_points" -> IF Thorough THEN {65535, 65536, 65636, 66000} ELSE {65535, 65636}
+    \* (not 65536: it wraps to 0, which the maximum over the other glyphs hides)
+    [] f = "glyph_points" -> IF Thorough THEN {65535, 65636, 66000} ELSE {65535, 65636}
     [] f = "width_class" -> {0, 1, 2, 5, 9, 10, 11, 65535, 65536, -1}
     [] f = "width_class_g" -> {0, 1, 5, 9, 10, 65535}
 
@@ -252,7 +253,7 @@ Singles == UNION {{[items |-> <<Item(f, v)>>, src |-> s] : v \in Values(f), s \i
 \* cases that only exist as a combination
 Linked ==
      {[items |-> <<Item("glyph_count", n), Item("num_h_metrics", n)>>, src |-> "static"] :
-        n \in (IF Thorough THEN {65535, 65536, 65537} ELSE {})}
+        n \in (IF Thorough THEN {65535, 65536} ELSE {})}
   \cup {[items |-> <<Item("comp_contours", n), Item("comp_points", 3 * n)>>, src |-> "static"] :
         n \in {65535, 65536} \cup (IF Thorough THEN {66000} ELSE {})}
 
